@@ -75,6 +75,10 @@ def scenario(spec: dict):
             if raise_at is not None and j == raise_at:
                 if spec.get('raise_kind') == 'KeyboardInterrupt':
                     raise KeyboardInterrupt
+                if spec.get('raise_kind') == 'GeneratorExit':
+                    raise GeneratorExit          # what the body sees when the generator holding the writer is closed early
+                if spec.get('raise_kind') == 'SystemExit':
+                    raise SystemExit(3)
                 raise BodyError(f'body failed at write {j}')
         if kind == 'bytes':
             with AtomicWriter(dest, is_bytes=True) as f:
@@ -95,6 +99,15 @@ def scenario(spec: dict):
             with w as f:
                 for c in spec['chunks']:
                     f.write(CHUNKS[c])
+        elif kind == 'generator':
+            def gen():
+                with AtomicWriter(dest, is_bytes=True) as f:
+                    for c in spec['chunks']:
+                        f.write(CHUNKS[c])
+                        yield c
+            g = gen()
+            next(g)
+            g.close()            # the consumer stops early: the write was abandoned half-way
         elif kind == 'abandon':
             # a cycle that is entered, written to and never exited (the caller lost interest), then the same writer
             # object performs a complete cycle: the destination must hold exactly the second cycle's data
@@ -166,7 +179,7 @@ def explore_scenario(base: str, spec: dict) -> core.Acc:
     acc.evaluations += 1
     nops = len(ctl.log)
     acc.count('operations_profiled', nops)
-    expect_fail = spec.get('raise_at') is not None
+    expect_fail = spec.get('raise_at') is not None or spec['kind'] == 'generator'
     _, _, expected = scenario(spec)
     if spec['kind'] == 'bsp' and raised is None:
         with open(dest, 'rb') as f:
@@ -182,9 +195,11 @@ def explore_scenario(base: str, spec: dict) -> core.Acc:
     final = faultfs.dir_snapshot(root)
     stale = {k: v for k, v in pre.items() if os.path.basename(k).startswith('tmp_')}
     if expect_fail:
-        if raised is None:
+        if raised is None and spec['kind'] == 'generator':
+            pass        # closing a generator is a normal return for the consumer
+        elif raised is None:
             acc.fail('body_exception_swallowed', case0, f'{spec}: the body raised but the with-statement returned normally')
-        elif not isinstance(raised, (BodyError, KeyboardInterrupt)):
+        elif not isinstance(raised, (BodyError, KeyboardInterrupt, GeneratorExit, SystemExit)):
             acc.fail('body_exception_replaced', case0, f'{spec}: body exception replaced by {type(raised).__name__}: {raised}')
         if final.get(rel_dest) != old_hash:
             acc.fail('abandoned_write_changed_dest', case0, f'{spec}: destination changed although the body raised: {final}')
@@ -245,7 +260,7 @@ def explore_scenario(base: str, spec: dict) -> core.Acc:
             # absorbing these is the designed behaviour: EEXIST -> next temp name; ENOENT on cleanup; and pathlib's
             # mkdir(exist_ok=True) ignores any OSError when the directory is already there
             tolerated = (op == 'open' and fname == 'EEXIST') or (op == 'unlink' and fname == 'ENOENT') or op == 'mkdir'
-            if raised2 is None or (expect_fail and isinstance(raised2, (BodyError, KeyboardInterrupt))):
+            if raised2 is None or (expect_fail and isinstance(raised2, (BodyError, KeyboardInterrupt, GeneratorExit, SystemExit))):
                 # the writer absorbed the fault (e.g. EEXIST -> next temp name): then the normal outcome is required
                 want = old_hash if expect_fail else new_hash
                 if spec['kind'] == 'twice' and got == sha(b'FIRST-GENERATION'):
@@ -291,11 +306,33 @@ def two_writer_world(base: str, cfg: dict):
     if cfg.get('stale'):
         with open(os.path.join(root, 'tmp_1'), 'wb') as f:
             f.write(b'STALE')
+    bsp_src = None
+    if cfg.get('bsp') is not None:
+        # one of the two writers is BSP.save() of a small map: its expected output is taken from a save outside the explorer
+        from srctools.bsp import BSP
+        from checks import bspgen as _G
+        bsp_src = os.path.join(base, 'tiny_src.bsp')
+        if not os.path.exists(bsp_src):
+            with open(bsp_src, 'wb') as f:
+                f.write(_G.empty_file('v20'))
+            BSP(bsp_src).save(os.path.join(base, 'tiny_ref.bsp'))
+        with open(os.path.join(base, 'tiny_ref.bsp'), 'rb') as f:
+            news[cfg['bsp']] = f.read()
     ctl = faultfs.Controller(root)
     inter = faultfs.Interposer(ctl)
     inter.__enter__()
 
     def body(i: int):
+        def fn_bsp() -> None:
+            from srctools.bsp import BSP
+            b = BSP(bsp_src)
+            try:
+                b.save(dests[i])
+            finally:
+                del b
+        if cfg.get('bsp') == i:
+            return fn_bsp
+
         def fn() -> None:
             writer = AtomicWriter(dests[i], is_bytes=True)
             f = None
@@ -326,7 +363,7 @@ def two_writer_world(base: str, cfg: dict):
     return world, [body(0), body(1)], ['w0', 'w1'], set_actor, hook_setter, lambda w: w['inter'].__exit__(None, None, None)
 
 
-def explore_two_writers(base: str, cfg: dict, max_preempt) -> core.Acc:
+def explore_two_writers(base: str, cfg: dict, max_preempt, only_schedule=None) -> core.Acc:
     acc = core.Acc()
 
     def judge(world, run) -> None:
@@ -346,7 +383,7 @@ def explore_two_writers(base: str, cfg: dict, max_preempt) -> core.Acc:
                 acc.fail('writer_error_lost', case, f'{cfg} schedule={run.choices}: writer {i} should have raised BodyError, got {err!r}')
             if not failed and err is not None:
                 acc.fail('writer_raised', case, f'{cfg} schedule={run.choices}: writer {i} raised {type(err).__name__}: {err}')
-        wrote = world['news'][0][:cfg['writes'] * 1000], world['news'][1][:cfg['writes'] * 1000]
+        wrote = tuple(world['news'][i] if cfg.get('bsp') == i else world['news'][i][:cfg['writes'] * 1000] for i in range(2))
         if cfg.get('same_dest'):
             got = fin.get('a.bin')
             ok = {sha(wrote[i]) for i in range(2) if cfg.get('fail') != i} or {sha(world['olds'][0])}
@@ -364,6 +401,23 @@ def explore_two_writers(base: str, cfg: dict, max_preempt) -> core.Acc:
         if cfg.get('stale') and fin.get('tmp_1') != sha(b'STALE'):
             acc.fail('stale_temp_clobbered', case, f'{cfg} schedule={run.choices}: the stale tmp_1 of a crashed writer was modified or removed')
 
+    if only_schedule is not None:
+        # replay of one recorded schedule (the choices are forced; a divergence is a hard error inside execute())
+        world, bodies, names, set_actor, hook_setter, cleanup = two_writer_world(base, cfg)
+        run = sched.Run(bodies, names)
+        hook_setter(run.at_point)
+        try:
+            run.execute(list(only_schedule), set_actor)
+            hook_setter(None)
+            judge(world, run)
+        finally:
+            hook_setter(None)
+            for exc in run.errors:
+                if exc is not None:
+                    exc.__traceback__ = None
+            run.bodies = []
+            cleanup(world)
+        return acc
     stats = sched.explore(lambda: two_writer_world(base, cfg), judge, max_preemptions=max_preempt)
     acc.count('schedules', stats['schedules'])
     acc.count('max_points_per_schedule', stats['max_points'])
@@ -519,6 +573,10 @@ def scenario_list(quick: bool) -> list:
         for j in range(len(chunks) + 1):
             for rk in ('ValueError', 'KeyboardInterrupt'):
                 specs.append({'kind': 'bytes', 'chunks': chunks, 'old': True, 'raise_at': j, 'raise_kind': rk})
+    for rk in ('GeneratorExit', 'SystemExit'):
+        for j in (0, 1, 2):
+            specs.append({'kind': 'bytes', 'chunks': 'sf', 'old': True, 'raise_at': j, 'raise_kind': rk})
+    specs.append({'kind': 'generator', 'chunks': 'sf', 'old': True})
     specs.append({'kind': 'bytes', 'chunks': 'sf', 'old': False, 'raise_at': 1, 'raise_kind': 'ValueError'})
     specs.append({'kind': 'bytes', 'chunks': 'sf', 'old': False, 'subdir': True})
     specs.append({'kind': 'bytes', 'chunks': 'sf', 'old': True, 'stale': True})
@@ -540,6 +598,9 @@ def run(ctx: core.Ctx) -> None:
                 {'writes': 1, 'stale': True, 'fail': 1}, {'writes': 1, 'same_dest': True}, {'writes': 1, 'reuse': 0},
                 {'writes': 1, 'reuse': 1, 'fail': 0}):
         shards.append(('two', cfg, None))
+    # a plain writer next to BSP.save() of a small map in the same directory (many more operations: preemption-bounded)
+    shards.append(('two', {'writes': 1, 'bsp': 1}, ctx.pick(1, 2)))
+    shards.append(('two', {'writes': 1, 'bsp': 0}, ctx.pick(1, 2)))
     # conformance of the in-process operation model with real syscalls (strace), and real SIGKILLs
     st_specs = scenario_list(ctx.quick)
     if ctx.quick:
@@ -573,7 +634,7 @@ def replay(case: dict) -> list:
         if case.get('mode') == 'strace':
             acc = explore_strace(base, case['spec'])
         elif 'two_writers' in case:
-            acc = explore_two_writers(base, case['two_writers'], None)
+            acc = explore_two_writers(base, case['two_writers'], None, only_schedule=case.get('schedule'))
         else:
             acc = explore_scenario(base, case['spec'])
         return acc.all_failures()
